@@ -20,6 +20,26 @@ Clauses(r) ==
     [] r.op = "x.ecdh" -> << <<"ecdh-raw", r.out.raw = EcdhRaw(r.in.secret, r.in.pub)>>, <<"ecdh-key", r.out.key = EcdhKey(r.in.secret, r.in.pub)>>,
                              <<"ecdh-symmetric", r.out.raw = r.out.raw_other>> >>
     [] r.op = "x.pred" -> << <<"is_final", r.out.final = IsFinalIn(r.in.txin)>>, <<"is_null", r.out.null = IsNullOutPoint(r.in.txin.prevout)>> >>
+    [] r.op = "x.varint" -> << <<"varint-bytes", r.out.ser = VarIntBn(r.in.n)>>, <<"varint-roundtrip", r.out.back = BnNorm(r.in.n)>> >>
+    [] r.op = "x.read" ->
+         LET p == ReadStandalone(r.in.kind, r.in.buf) IN
+         << <<"standalone-read-outcome", IF p.ok THEN r.out.k = "ret" ELSE r.out.k = p.err>>,
+            <<"standalone-read-value", (p.ok /\ r.out.k = "ret") => r.out.v = p.v>> >>
+    [] r.op = "x.vec" -> << <<"vector-bytes", r.out.ser = SerFixedVec(r.in.v)>>, <<"vector-roundtrip", r.out.back = r.in.v>> >>
+    [] r.op = "x.bignum" ->
+         LET v == MkInt(r.in.neg, r.in.mag) IN
+         << <<"bn2bin", r.out.bin = Bn2Bin(r.in.mag)>>, <<"bin2bn", r.out.bin_back = BnNorm(r.in.mag)>>,
+            <<"bn2mpi", r.out.mpi = Bn2Mpi(v)>>, <<"bn2vch", r.out.vch = Bn2Vch(v)>>,
+            <<"mpi2bn-inverse", r.out.mpi_back = v>>, <<"vch2bn-inverse", r.out.vch_back = v>> >>
+    [] r.op = "x.bignum.dec" ->
+         LET m == Mpi2Bn(r.in.s) IN
+         << <<"vch2bn", r.out.vch = Vch2Bn(r.in.s)>>,
+            <<"mpi2bn", IF m.ok THEN (r.out.mpi_ok /\ r.out.mpi = m.v) ELSE ~r.out.mpi_ok>> >>
+    [] r.op = "x.dersig" ->
+         LET p == ReadDerSig(r.in.b) IN
+         << <<"dersig-read-outcome", IF p.ok THEN r.out.k = "ret" ELSE r.out.k = p.err>>,
+            <<"dersig-read-value", (p.ok /\ r.out.k = "ret") => (r.out.r = p.v.r /\ r.out.s = p.v.s /\ r.out.length = p.v.length)>>,
+            <<"dersig-write-inverts-read", (p.ok /\ p.v.whole /\ r.out.k = "ret") => r.out.reser = r.in.b>> >>
     [] OTHER -> << <<"unknown-op", FALSE>> >>
 TraceInit == l = TraceStart
 TraceNext == l <= Len(Recs) /\ Judge(Recs[l], Clauses(Recs[l])) /\ l' = l + 1
